@@ -155,7 +155,8 @@ def build_harness(container):
     h = hashlib.sha256()
     h.update(repo_src_hash().encode())
     h.update(shim.read_bytes())
-    h.update((ROOT / "harness" / "common.h").read_bytes())
+    for hf in sorted((ROOT / "harness").glob("*.h")):
+        h.update(hf.read_bytes())
     h.update(" ".join(CFLAGS).encode())
     key = h.hexdigest()[:16]
     bindir = CACHE / "bin"
@@ -170,7 +171,7 @@ def build_harness(container):
         for old in olds[:-5]:
             old.unlink()
         tmp = bindir / f".tmp_{container}_{os.getpid()}"
-        cmd = ["gcc"] + CFLAGS + [f"-I{REPO}/src/include", f"-I{REPO}/src/include/sized",
+        cmd = ["gcc"] + CFLAGS + ([] if container in ("spool", "dpool") else ["-DVERIF_WITH_POOL"]) + [f"-I{REPO}/src/include", f"-I{REPO}/src/include/sized",
                                   f"-I{REPO}/src/include/memory", f"-I{REPO}/src", f"-I{REPO}/src/sized",
                                   f"-I{REPO}/src/memory", f"-I{ROOT}/harness", str(shim), "-o", str(tmp), "-lm"]
         r = sh(cmd)
@@ -319,6 +320,7 @@ class Runner:
         self.refusals_fired = 0
         self.samples = []
         self.model_lines = 0
+        self.hooks = []       # functions (hist_index, ops, c_lines) -> [Diff]
 
     def run(self, histories):
         """histories: list of list[str] (each starts with its constructor, the runner adds `reset`).
@@ -373,6 +375,8 @@ class Runner:
             s_lines = [lout[2 * (lo + i)] for i in range(len(ops))]
             m_lines = [lout[2 * (lo + i) + 1] for i in range(len(ops))]
             diffs = compare_history(h, ops, c_out.get(h, []), s_lines, m_lines, crash.get(h), self.opts)
+            for hook in self.hooks:
+                diffs.extend(hook(h, ops, c_out.get(h, [])))
             self._stats(ops, c_out.get(h, []), m_lines)
             if diffs:
                 results.append((h, diffs))
@@ -412,10 +416,11 @@ class Runner:
 
 # --------------------------------------------------------------------------- shrinking
 
-def shrink(container, ops, pred, opts=None, budget=400):
+def shrink(container, ops, pred, opts=None, budget=400, hooks=None):
     """delta-debugging over the operation list; `pred(diffs)` says whether the failure persists.
     The first line (constructor) is kept."""
     r = Runner(container, opts)
+    r.hooks = hooks or []
     cur = list(ops)
     n = 2
     tries = 0
